@@ -120,6 +120,7 @@ def build_ops() -> Tuple[Dict[str, Callable[[], Any]], List[str], List[str], Lis
         "enc_txtlong": lambda: R.R3.encode(p="abcdef"),
         "enc_struct_unknown": lambda: R.R4.encode(p={"a": 1, "b": 2, "c": 3}),
         "enc_ascii_long": lambda: R.R5.encode(p="abc"),
+        "enc_unencodable_char": lambda: R.R5.encode(p="a\u20ac"),      # no such character in the object's encoding
         "enc_int_range": lambda: R.R6.encode(p=200),
         "dec_lin_range": lambda: R.R7.decode(b"\x22\x30"),
         "dec_physconst": lambda: R.R8.decode(b"\x22\x08\x01"),
